@@ -58,8 +58,8 @@ theorem filter_origin_insertKey_origin (ks : List Key) (k : Key) (hk : k.1 = 0) 
     simp [List.filter_append, hk, hb]
 
 def Op.key : Op → Key
-  | .item _ kind sn _ _ _ => (kind, sn)
-  | .origin _ sn _ _ _ => (0, sn)
+  | .item _ kind sn _ _ _ => (kind, normName sn)
+  | .origin _ sn _ _ _ => (0, normName sn)
 
 def Op.isOrigin : Op → Bool
   | .origin .. => true
@@ -262,19 +262,19 @@ theorem Inv.step {all : List Op} {w w' : World} (h : Inv all w w') (op : Op) (ho
       have hlf0 : lf < w.keys.length := hlf
       cases out with
       | ok =>
-        have hb : Inv all (touchKey w lf (kind, sn)) (touchKey w' lf (kind, sn)) :=
-          h.touch_both (.item lf kind sn name oref .ok) hop hlf (kind, sn) rfl
+        have hb : Inv all (touchKey w lf (kind, normName sn)) (touchKey w' lf (kind, normName sn)) :=
+          h.touch_both (.item lf kind sn name oref .ok) hop hlf (kind, normName sn) rfl
         simp only [Op.rejected, bne_self_eq_false, Bool.false_eq_true, ↓reduceIte, addItem]
-        have e1 : defaultOrigin (touchKey w' lf (kind, sn)) lf = defaultOrigin (touchKey w lf (kind, sn)) lf := by
+        have e1 : defaultOrigin (touchKey w' lf (kind, normName sn)) lf = defaultOrigin (touchKey w lf (kind, normName sn)) lf := by
           simp only [defaultOrigin, hb.originsOfLf lf]
         rw [e1, h.copyNumber]
-        exact hb.append _ hop hdisj _ rfl rfl (mem_lfKeys_touch_self w lf (kind, sn) hlf0)
+        exact hb.append _ hop hdisj _ rfl rfl (mem_lfKeys_touch_self w lf (kind, normName sn) hlf0)
       | rejectEarly =>
         simp only [Op.rejected, addItem]
-        exact (h.touch_right _ hop hdisj hlf (kind, sn) rfl hk0 : Inv all w (touchKey w' lf (kind, sn)))
+        exact (h.touch_right _ hop hdisj hlf (kind, normName sn) rfl hk0 : Inv all w (touchKey w' lf (kind, normName sn)))
       | rejectLate =>
         simp only [Op.rejected, addItem]
-        exact (h.touch_right _ hop hdisj hlf (kind, sn) rfl hk0 : Inv all w (touchKey w' lf (kind, sn)))
+        exact (h.touch_right _ hop hdisj hlf (kind, normName sn) rfl hk0 : Inv all w (touchKey w' lf (kind, normName sn)))
   | origin lf sn name oref out =>
     have hout : out = .ok := by
       cases out
@@ -283,18 +283,18 @@ theorem Inv.step {all : List Op} {w w' : World} (h : Inv all w w') (op : Op) (ho
       · have := hrej (by simp [Op.rejected]); simp [Op.isOrigin] at this
     subst hout
     have hlf0 : lf < w.keys.length := hlf
-    have hb : Inv all (touchKey w lf (0, sn)) (touchKey w' lf (0, sn)) :=
-      h.touch_both (.origin lf sn name oref .ok) hop hlf (0, sn) rfl
+    have hb : Inv all (touchKey w lf (0, normName sn)) (touchKey w' lf (0, normName sn)) :=
+      h.touch_both (.origin lf sn name oref .ok) hop hlf (0, normName sn) rfl
     simp only [Op.rejected, bne_self_eq_false, Bool.false_eq_true, ↓reduceIte, Dlis.step, addOrigin]
     rw [hb.originsOfLf lf]
-    cases hnr : newOriginRef (Dlis.originsOfLf (touchKey w lf (0, sn)) lf) oref with
+    cases hnr : newOriginRef (Dlis.originsOfLf (touchKey w lf (0, normName sn)) lf) oref with
     | error e => exact hb
     | ok r =>
       simp only
       rw [h.copyNumber]
       have ha := hb.append _ hop hdisj
-        { lf := lf, kind := 0, setName := sn, name := name, origin := some r, copy := Dlis.copyNumber w (0, sn) name }
-        rfl rfl (mem_lfKeys_touch_self w lf (0, sn) hlf0)
+        { lf := lf, kind := 0, setName := normName sn, name := name, origin := some r, copy := Dlis.copyNumber w (0, normName sn) name }
+        rfl rfl (mem_lfKeys_touch_self w lf (0, normName sn) hlf0)
       rw [ha.originsOfLf lf]
       split
       · exact ha.backfill lf r
